@@ -2616,6 +2616,12 @@ fn normalize_query_for_search<'a>(
     }
 
     let norm_sq = crate::simd::sum_squares_f32(query);
+    if !norm_sq.is_finite() {
+        // A finite query whose squared norm overflows f32 would be "normalized" to the zero
+        // vector, which the cold tier rejects: the search then counted as a cold-tier failure
+        // and a few such requests opened the cold-tier circuit breaker for every client.
+        anyhow::bail!("invalid query embedding: norm is not finite; cannot normalize");
+    }
     if norm_sq <= f32::EPSILON {
         anyhow::bail!("embedding norm is zero; cannot normalize");
     }
